@@ -210,6 +210,29 @@ def c11(res, tier, seed, replay):
                 dumps = sorted(glob.glob(os.path.join(vlib.subdir(f"cm-stages{ms}"), "stuck-stage-*.dump")))[:1]
                 res.violation(f"cache manager, transaction on several goroutines (maxsize {ms}): no monitor action explains line {n}: {line.strip()[:300]}",
                               files=[out] + dumps, meta={"stages": True, "maxsize": ms, "line": n})
+    # free-running rounds with every transaction on parallel goroutines (isolation by the monitor, everybody returns)
+    if stage_sizes and not replay:
+        for ms in stage_sizes:
+            out = os.path.join(vlib.subdir("traces"), f"cache-stress-ms{ms}.ndjson")
+            rc, so, se = vlib.run_vh(["cachemgr", "-stress", 300 if tier == "quick" else 6000, "-seed", seed, "-maxsize", ms, "-out", out,
+                                      "-dir", vlib.subdir(f"cm-stress{ms}")], timeout=1800)
+            if rc != 0:
+                if CRASH_RE.search(se):
+                    errf = out + ".stderr"
+                    open(errf, "w").write(se)
+                    res.violation("cache manager stress rounds crashed: " + next((ln for ln in se.splitlines() if CRASH_RE.search(ln)), "")[:200],
+                                  files=[errf], meta={"stages": True, "maxsize": ms})
+                    continue
+                raise Inconclusive(f"cachemgr stress rounds failed rc={rc}: {se[-1500:]}")
+            tv = vlib.tlc_trace("CacheMonitor", out, known=kn.keys(), name=f"cache-stress-ms{ms}", timeout=1800)
+            res.add("traces_validated_against_impl", 1)
+            res.add("stress_rounds", json.loads(so.strip().splitlines()[-1])["behaviours"])
+            if not tv["accepted"]:
+                n = tv["matched"] + 1
+                line = vlib.read_line(out, n) or ""
+                dumps = sorted(glob.glob(os.path.join(vlib.subdir(f"cm-stress{ms}"), "stuck-stress-*.dump")))[:1]
+                res.violation(f"cache manager, stress rounds with transactions on several goroutines (maxsize {ms}): no monitor action explains line {n}: {line.strip()[:300]}",
+                              files=[out] + dumps, meta={"stages": True, "maxsize": ms, "line": n})
     tot_drift = 0
     for name, ms, behs in jobs:
         bf = os.path.join(vlib.subdir("traces"), f"cache-{name}.behaviours")
